@@ -42,6 +42,8 @@ DivOps == {"div", "rem", "div_rem", "checked_div", "div_floor", "mod_floor", "di
 Fails(e) ==
     CASE e.op \in {"sub", "checked_sub"} /\ IsUTy(e) -> FailsSubU(A(e, 1), A(e, 2))
       [] e.op \in DivOps -> FailsDiv(A(e, 2))
+      [] e.op = "modpow" -> FailsModPow(S(e, 2), S(e, 3))
+      [] e.op = "modinv" -> S(e, 2).s = 0
       [] e.op \in {"shl", "shr"} -> e.sc[1].neg /\ e.sc[1].m # <<>>
       [] e.op \in {"to_str_radix", "parse"} -> FailsTextRadix(e.radix)
       [] e.op \in {"to_radix_le", "to_radix_be", "from_radix_le", "from_radix_be"} -> FailsDigitRadix(e.radix)
@@ -72,6 +74,9 @@ Rule(e) ==
       [] e.op = "to_signed_bytes_le" -> IsSignedBytesLE(e.ret.bytes, S(e, 1))
       [] e.op = "to_signed_bytes_be" -> IsSignedBytesLE(Reverse(e.ret.bytes), S(e, 1))
       [] e.op = "iter_collect" -> e.ret.bytes = Flatten(IF e.rev THEN Reverse(WordList(S(e, 1), e.w)) ELSE WordList(S(e, 1), e.w))
+      [] e.op = "modpow" -> LET mp == ModPowR(S(e, 1), S(e, 2), S(e, 3), e.hq) IN mp.ok /\ PostIs1(e, mp.v)
+      [] e.op = "modinv" -> IF e.ret.some THEN ModInvSomeOK(S(e, 1), S(e, 2), PA(e, 1), Adopt(e.ret.hk))
+                            ELSE ModInvNoneOK(S(e, 1), S(e, 2), e.hg)
       [] e.op = "to_str_radix" -> IsTextOf(e.ret.text, S(e, 1), e.radix, FALSE)
       [] e.op = "fmt" -> e.ret.text = FormatR(S(e, 1), e.spec)
       [] e.op = "to_radix_le" -> IsDigitsOf(Reverse(e.ret.bytes), S(e, 1).d, e.radix) /\ (e.ty = "I" => e.ret.n = S(e, 1).s)
